@@ -124,6 +124,14 @@ func programs(tier string) []Program {
 					return []func(){reconcileBody(p, "m", &errsSink), reconcileBody(p, "s", &errsSink)}
 				}
 			}),
+		// a multi-fraction consumer of g1+g2 was deleted: its handler syncs both groups while a single-fraction pod joins g1
+		mk("pod-delete-handler(multi g1,g2)||bind(single g1)", []string{"pod-deleted(m0)", "reconcile(s)"}, []br.Workload{fracWL("m0", "0.5", "g1", "g2")}, fracWL("s", "0.3", "g1"), nil,
+			func(w *br.World, sc *br.Scenario) func(w *br.World, p *br.Proc) []func() {
+				last := w.EnvDeletePod("m0")
+				return func(w *br.World, p *br.Proc) []func() {
+					return []func(){func() { p.PodDeleted(last) }, reconcileBody(p, "s", &errsSink)}
+				}
+			}),
 		// three threads: two binds on one group plus the startup Sync that runs while the manager already reconciles
 		mk("bind||bind||startup-sync", []string{"reconcile(a)", "reconcile(b)", "Sync"}, []br.Workload{fracWL("c0", "0.3", "g1")}, fracWL("a", "0.5", "g1"), []br.Workload{fracWL("b", "0.2", "g1")},
 			func(w *br.World, sc *br.Scenario) func(w *br.World, p *br.Proc) []func() {
